@@ -118,6 +118,7 @@ def ret_kind(F, callee, dest_ty):
 class Extractor:
     def __init__(self, A, F):
         self.A, self.F, self.ip = A, F, A.ip
+        self.real_checks = False      # True: check_tlf bodies are evaluated for real instead of yielding an unknown boolean
 
     def opaque(self, self_def):
         F = self.F
@@ -131,6 +132,8 @@ class Extractor:
             name = callee.get("method") or r["def"].split("::")[-1]
             b = F.bodies.get(r["def"])
             if b is not None and b.get("auto_derived"):
+                return False
+            if self.real_checks and name == "check_tlf" and b is not None:
                 return False
             # inline small non-parsing helpers (constructors, conversions, `map`)
             if b is not None and (b.get("impl_trait") == "std::convert::From" or
